@@ -72,6 +72,8 @@ def correspond(ctx):
                 out = 'err:' + type(e).__name__
             if out == 'nosuccess':
                 continue   # the front end does not take this spelling after a number: not the arithmetic's business
+            if res.success and not res.timex.lstrip('PT').startswith('%d%s' % (n, code[0])):
+                continue   # another path of the parser fired ("1 h and a quarter", half units): not N × unit
             lines.append('durtimex\t%d\t%s' % (n, cps(code)))
             expect.append(out)
     for _ in range(2000 if ctx.thorough else 300):
@@ -114,7 +116,7 @@ def correspond(ctx):
     want = common.driver(want_lines) if want_lines else []
     for j, m, got, w in zip(jobs, meta, res, want):
         ctx.count('duration %s' % m[0])
-        wt, wv = w.split(' ')
+        wt, wv = w.rsplit(' ', 1)
         wt = uncps(wt)
         ok, why = False, ''
         if isinstance(got, str):
@@ -170,15 +172,19 @@ def correspond(ctx):
     for k, (j, m, got) in enumerate(zip(jobs, meta, res)):
         ctx.count('explicit %s range' % m[0])
         why = ''
-        if isinstance(got, str) or len(got) != 1 or not got[0]['values'] or len(got[0]['values']) != 1:
-            why = 'not exactly one entity with one value'
+        if isinstance(got, str) or len(got) != 1 or not got[0]['values']:
+            why = 'not exactly one entity with values'
         else:
             e = got[0]
-            v = e['values'][0]
-            if v.get('type') != m[0] + 'range':
-                why = 'type %r' % v.get('type')
-            elif v.get('start') != m[1] or v.get('end') != m[2]:
-                why = 'end points %r..%r, expected %r..%r' % (v.get('start'), v.get('end'), m[1], m[2])
+            # a clock time before 13:00 written without am/pm has two readings (C07): the stated end points must be one
+            # of them; every reading must be a consistent triple (checked below)
+            hits = [v for v in e['values'] if v.get('type') == m[0] + 'range' and v.get('start') == m[1] and v.get('end') == m[2]]
+            if any(v.get('type') != m[0] + 'range' for v in e['values']):
+                why = 'types %r' % [v.get('type') for v in e['values']]
+            elif not hits:
+                why = 'end points %r, expected %r..%r' % ([(v.get('start'), v.get('end')) for v in e['values']], m[1], m[2])
+            elif m[0] == 'date' and len(e['values']) != 1:
+                why = '%d values for a date range' % len(e['values'])
             elif (e['start'], e['end']) != (0, len(j[1]) - 1):
                 why = 'span [%d,%d]' % (e['start'], e['end'])
             else:
@@ -190,7 +196,7 @@ def correspond(ctx):
                        failing_input={'query': j[1], 'expected': m, 'got': got if isinstance(got, str) else got[:3]},
                        property_fails=True)
     for k, e, (tn, vs) in zip(idx, ents, dtcorpus.evaluate_wf(ents)):
-        if vs[0][2]:
+        if all(t for (_s, _d, t) in vs):
             ctx.nontriv(('range', jobs[k][1]))
         else:
             ctx.report('property', 'explicit-range-triple:%s' % meta[k][0], '%r: timex %r is not consistent with %r..%r' % (
